@@ -286,6 +286,12 @@ func xparse(b []byte) parsed {
 type cliCase struct {
 	Scripts  []tsgen.Script `json:"scripts"`
 	Continue bool           `json:"continue"`
+	// Flags are further options of the command that must not change the exit status: -v, -work, -e=NAME.
+	Flags []string `json:"flags,omitempty"`
+	// Stdin is the index of the script handed over on standard input (as "-", or by giving no file at all when it is
+	// the only one), counted from 1; 0 = none. TxtarExt: the script files are named .txtar.
+	Stdin    int  `json:"stdin,omitempty"`
+	TxtarExt bool `json:"txtar_ext,omitempty"`
 }
 
 func bin(name string) string {
@@ -316,7 +322,11 @@ func checkCLI(c cliCase) *vt.Fail {
 		}
 		s.P = tsmodel.Params{ContinueOnError: c.Continue}
 		name := fmt.Sprintf("s%d", i)
-		f := filepath.Join(root, name+".txt")
+		ext := ".txt"
+		if c.TxtarExt {
+			ext = ".txtar"
+		}
+		f := filepath.Join(root, name+ext)
 		os.WriteFile(f, s.Bytes(), 0o666)
 		files = append(files, f)
 		// the work directory is not known in advance: generated CLI scripts do not depend on its absolute name
@@ -345,10 +355,27 @@ func checkCLI(c cliCase) *vt.Fail {
 	if c.Continue {
 		args = append(args, "-continue")
 	}
+	for _, fl := range c.Flags {
+		if fl == "-v" || fl == "-work" || fl == "-e=CLI_ONLY" {
+			args = append(args, fl)
+		}
+	}
+	var stdin []byte
+	if c.Stdin >= 1 && c.Stdin <= len(files) {
+		stdin, _ = os.ReadFile(files[c.Stdin-1])
+		if len(files) == 1 && len(c.Flags)%2 == 0 {
+			files = nil // no file argument at all means standard input
+		} else {
+			files[c.Stdin-1] = "-"
+		}
+	}
 	args = append(args, files...)
 	cmd := exec.Command(bin("testscript"), args...)
-	cmd.Env = []string{"PATH=" + cliPath(), "HOME=" + root, "TMPDIR=" + root}
+	cmd.Env = []string{"PATH=" + cliPath(), "HOME=" + root, "TMPDIR=" + root, "CLI_ONLY=set on the host"}
 	cmd.Dir = root
+	if stdin != nil {
+		cmd.Stdin = bytes.NewReader(stdin)
+	}
 	var out bytes.Buffer
 	cmd.Stdout = &out
 	cmd.Stderr = &out
@@ -389,7 +416,12 @@ func TestCLI(t *testing.T) {
 	o := tsgen.Options{MaxLines: 12, FailProb: 50, Exec: true, Background: true, NoParams: true}
 	vt.Run(t, rec, vt.Prop[cliCase]{Kind: "cli", Gen: func(t *rapid.T) cliCase {
 		c := cliCase{Continue: rapid.IntRange(0, 3).Draw(t, "continue") == 0}
+		c.Flags = rapid.SliceOfNDistinct(rapid.SampledFrom([]string{"-v", "-work", "-e=CLI_ONLY"}), 0, 3, rapid.ID[string]).Draw(t, "flags")
+		c.TxtarExt = rapid.IntRange(0, 3).Draw(t, "txtarext") == 2
 		n := rapid.IntRange(1, 3).Draw(t, "nscripts")
+		if rapid.IntRange(0, 3).Draw(t, "usestdin") == 1 {
+			c.Stdin = rapid.IntRange(1, n).Draw(t, "stdinidx")
+		}
 		for i := 0; i < n; i++ {
 			s := tsgen.Gen(t, o)
 			s.P.ContinueOnError = c.Continue
